@@ -662,6 +662,9 @@ class Interp:
             return self.truth(self.resolve(v))
         if isinstance(v, SList):
             return wrap(v.length > 0)
+        from . import models as _m
+        if isinstance(v, _m.SMap):
+            return wrap(z3.Not(v.has == z3.K(v.ksort, z3.BoolVal(False))))
         if isinstance(v, (int, str, list, tuple, dict, set, frozenset, float, bytes)):
             return bool(v)
         if isinstance(v, Opaque):
@@ -765,6 +768,11 @@ class Interp:
             if isinstance(b, SChoice) and not isinstance(a, Sym):
                 return self.eq(b, a)
             return self._eq_resolved(a, b)
+        from . import models as _m
+        if isinstance(a, _m.SMap):
+            return a.eq(self, b)
+        if isinstance(b, _m.SMap):
+            return b.eq(self, a)
         sa, sb = isinstance(a, Sym), isinstance(b, Sym)
         if sa or sb:
             if isinstance(a, SList) or isinstance(b, SList):
@@ -794,7 +802,7 @@ class Interp:
                 r = self.reg.opaque_eq(self, a, b)
                 if r is not NotImplemented:
                     return r
-            return a is b
+            return self.is_(a, b)
         if not isinstance(a, (int, str, float, bytes, type(None), tuple, list, dict, set, frozenset, enum.Enum, type)):
             m = _static_lookup(type(a), '__eq__')
             if m is not None and isinstance(m[0], types.FunctionType) and _is_repo_function(m[0]):
@@ -878,6 +886,11 @@ class Interp:
             if _kind(a) != _kind(b):
                 return False
             raise Unsupported("'is' on symbolic int/str")
+        if isinstance(a, Opaque) and isinstance(b, Opaque) and a is not b:
+            from .api import same_object
+            r = same_object(a, b)
+            if r is not None:
+                return r
         return a is b
 
     def not_(self, v):
@@ -896,6 +909,11 @@ class Interp:
         if isinstance(container, SList):
             from . import models
             return models.slist_contains(self, container, x)
+        from . import models as _m
+        if isinstance(container, _m.SMap):
+            return container.contains(self, x)
+        if isinstance(container, _m.SMapKeys):
+            return container.m.contains(self, x)
         if isinstance(container, (list, tuple, set, frozenset)) or isinstance(container, (dict,)) or \
                 type(container).__name__ in ('dict_keys', 'dict_values', 'mappingproxy'):
             if not contains_sym(x, 0) and not contains_sym(container, 1) and not isinstance(x, (tuple, list)):
@@ -1134,7 +1152,7 @@ class Interp:
             obj = self.resolve(obj)
         if isinstance(idx, (SOpt, SChoice)):
             idx = self.resolve(idx)
-        if isinstance(obj, (SStr, SList)) or (isinstance(obj, str) and _slice_sym(idx)):
+        if isinstance(obj, (SStr, SList, models.SMap)) or (isinstance(obj, str) and _slice_sym(idx)):
             return models.sym_getitem(self, obj, idx)
         if isinstance(obj, Opaque):
             return self.reg.call_opaque(self, obj, '__getitem__', [idx], {})
